@@ -59,6 +59,7 @@ type handlerRec struct {
 	Method    string   `json:"method"`
 	URL       string   `json:"url"`
 	Kind      string   `json:"kind"`
+	CurOp     int      `json:"current_operation"`
 	Before    []string `json:"before_tags,omitempty"` // X-Verif-Before values already on the request
 	ClientNil bool     `json:"http_client_nil,omitempty"`
 	Err       string   `json:"err,omitempty"`
@@ -76,8 +77,9 @@ type factoryOpt struct{ Tag string }
 
 // runLog collects the client-side logs of one run.
 type runLog struct {
-	client string
-	failAt int // before-request returns errBoom on its failAt-th invocation (0: never)
+	client    string
+	failAt    int    // before-request returns errBoom on its failAt-th invocation (0: never)
+	vetoToken string // before-request returns errBoom whenever the context carries this token ("": never)
 
 	mu      sync.Mutex
 	seq     int
@@ -129,7 +131,9 @@ func (l *runLog) beforeFn(ctx context.Context, req *http.Request) error {
 	l.mu.Lock()
 	l.bef++
 	n := l.bef
-	rec := &beforeRec{N: n, Token: tokenOf(ctx), Method: req.Method, URL: req.URL.String(), Kind: kind, CurOp: l.curOp, Failed: n == l.failAt}
+	tok := tokenOf(ctx)
+	rec := &beforeRec{N: n, Token: tok, Method: req.Method, URL: req.URL.String(), Kind: kind, CurOp: l.curOp,
+		Failed: n == l.failAt || (l.vetoToken != "" && tok == l.vetoToken)}
 	l.before = append(l.before, rec)
 	l.mu.Unlock()
 	req.Header.Add(hdrBefore, strconv.Itoa(n))
@@ -139,13 +143,13 @@ func (l *runLog) beforeFn(ctx context.Context, req *http.Request) error {
 	return nil
 }
 
-// failedBefore returns the before-request record that returned the error, once it exists.
+// failedBefore returns the latest before-request record that returned the error, once one exists.
 func (l *runLog) failedBefore() *beforeRec {
 	l.mu.Lock()
 	defer l.mu.Unlock()
-	for _, b := range l.before {
-		if b.Failed {
-			return b
+	for i := len(l.before) - 1; i >= 0; i-- {
+		if l.before[i].Failed {
+			return l.before[i]
 		}
 	}
 	return nil
@@ -178,7 +182,7 @@ func (h *recHandler) Handle(ctx context.Context, client *http.Client, req *http.
 	kind, _ := classify(l.client, req.Method, peekBody(req))
 	l.mu.Lock()
 	l.seq++
-	rec := &handlerRec{Seq: l.seq, Label: h.label, Token: tokenOf(ctx), Method: req.Method, URL: req.URL.String(), Kind: kind,
+	rec := &handlerRec{Seq: l.seq, Label: h.label, Token: tokenOf(ctx), Method: req.Method, URL: req.URL.String(), Kind: kind, CurOp: l.curOp,
 		Before: append([]string{}, req.Header.Values(hdrBefore)...), ClientNil: client == nil}
 	l.handler = append(l.handler, rec)
 	l.mu.Unlock()
